@@ -204,7 +204,7 @@ Definition same_pred (p q : pred) : Prop :=
   pid p = pid q /\
   match panchor p, panchor q with
   | None, None => True
-  | Some a, Some b => ns a = ns b
+  | Some a, Some b => uns a = uns b
   | _, _ => False
   end.
 
